@@ -316,6 +316,18 @@ def restrict(formula: T, assign: Callable[[T], Optional[bool]]) -> T:
     return formula
 
 
+def select(t: T, assign: Callable[[T], Optional[bool]]) -> T:
+    """value term restricted to the cases an assignment describes: a
+    conditional value whose condition the assignment decides is replaced by
+    the alternative taken (outermost conditionals only)"""
+    while isinstance(t, T) and t.op == "ite":
+        c = fold(t.args[0], assign)
+        if c is None:
+            break
+        t = t.args[1] if c else t.args[2]
+    return t
+
+
 def _free_atoms(formula: T, assign, out: list) -> None:
     if is_const(formula) or assign(formula) is not None:
         return
